@@ -131,6 +131,12 @@ DecisionCertified ==
   \A a \in Corr : rs[a].decision # Nil =>
      \E r \in Rounds : StrictQuorum(SumPower(PrecommitsFor(rs[a].decision, r)))
 
+\* supports C03: a node in the commit step collects the parts of the DECIDED block and of nothing else (it never looks at
+\* its part set again once it waits there, so with any other header it would wait for ever)
+CommitPartsMatch ==
+  \A n \in Corr : (rs[n].step = StCommit /\ rs[n].decision = Nil /\ ~Dead(rs[n]))
+                     => rs[n].partsHdr = Maj23(rs[n].pc[rs[n].commitR])
+
 \* ------------------------------------------------------------------ properties (C02, network view)
 NoEquivocation ==
   \A x, y \in signed : x.n = y.n /\ x.t = y.t /\ x.r = y.r => x.v = y.v /\ x.pol = y.pol
@@ -154,6 +160,11 @@ GoalSplitLockStale ==
 GoalCommitWithoutBlock ==
   \E a \in Corr : rs[a].step = StCommit /\ rs[a].propBlock = Nil /\ rs[a].decision = Nil
                    /\ \E b \in Corr : b # a /\ rs[b].decision = Nil /\ rs[b].step < StCommit
+\* ... and it has no proposal for its round yet, whose proposer is faulty (the faulty proposer can still send one)
+GoalCommitNoProposal ==
+  \E a \in Corr : rs[a].step = StCommit /\ rs[a].propBlock = Nil /\ rs[a].decision = Nil /\ rs[a].prop = NoProp
+                   /\ Proposer(rs[a].round) \in Byz /\ inq[a] = << >>
+NoGoalCommitNoProposal == ~GoalCommitNoProposal
 \* one node decided, another is locked on that block in an earlier round and a third is not locked at all
 GoalOneDecidedOthersBehind ==
   \E a, b \in Corr : a # b /\ rs[a].decision # Nil /\ rs[b].decision = Nil /\ rs[b].round >= 1
@@ -179,6 +190,11 @@ NoStageOneDecidedOthersLocked == ~StageOneDecidedOthersLocked
 \* used as a planner (shortest behaviour to a stage / to a violation).  Used for attack synthesis only, never for
 \* a verdict: a corridor removes behaviours, so "no violation" inside one proves nothing.
 CorridorStage1 ==
+  /\ \A n \in Corr : rs[n].round <= 1
+  /\ (act.name = "Deliver" /\ act.m \in ByzMsgs) => (act.m.t = "precommit" /\ act.m.v = Nil /\ act.m.r = 0)
+  /\ act.name = "Timeout" => act.k \in {"NewHeight", "PrecommitWait"}
+\* wider: the faulty validator's round-0 votes are needed for a quorum (weighted sets)
+CorridorStage1W ==
   /\ \A n \in Corr : rs[n].round <= 1
   /\ (act.name = "Deliver" /\ act.m \in ByzMsgs) => (act.m \in ByzVotes /\ act.m.r = 0 /\ act.m.v \in CorrValues \cup {Nil})
   /\ act.name = "Timeout" => act.k \in {"NewHeight", "PrecommitWait"}
